@@ -10,8 +10,9 @@
 (*     FullRank    the centred data span R^p (exact: a non-zero p x p minor of row differences)    *)
 (*     MeanOk      the published mean is the column mean                                           *)
 (*     CellOk      one cell of predict:  y = SUM_b (x_b - mean_b) W_ab                              *)
-(*     WhiteOk     the recovered sources of the training rows are centred and have covariance I    *)
-(*                 (normalised by n or by n - 1: the documentation does not say which)             *)
+(*     NormsOf     the recovered sources of the training rows are centred, mutually uncorrelated   *)
+(*                 and of equal variance: SUM_i y_i y_i^T = d I with d one of the conventional     *)
+(*                 scales n, n - 1, 1 (the documentation is silent about the scale of the sources) *)
 (*     Corr1000 /  Pearson correlation (1/1000) of a recovered column with a true source column;   *)
 (*     Separated   the weak separation clause "each recovered source correlates > 0.9 in absolute  *)
 (*                 value with exactly one true source"                                             *)
@@ -23,8 +24,8 @@
 (*   deviation), with ICA's indeterminacy (order and sign of the sources) left to TLC.  The        *)
 (*   outputs are the exact values rounded to the grid.  Invariants: invalid parameters never reach *)
 (*   training; the relations accept the rounded exact outputs and reject small perturbations       *)
-(*   (a cell moved by twice its tolerance, a scale error of 0.1 %, a rotation of the sources by atan(4/3), the    *)
-(*   1/sqrt(n) scale of the named deviation) -- so the relations are neither wrong nor vacuous.     *)
+(*   (a cell moved by twice its tolerance, a scale error of 0.1 %, unequal variances, a rotation   *)
+(*   of the sources by atan(4/3)) -- so the relations are neither wrong nor vacuous.               *)
 (***************************************************************************************************)
 EXTENDS Fx, TLC
 
@@ -105,9 +106,13 @@ WhiteOkD(Y, k, d) ==
   /\ \A a \in 1..k : Abs(SumSeq(Col(Y, a))) <= n
   /\ \A a \in 1..k : \A b \in a..k :
        Abs(Gram6(Y, a, b) - (IF a = b THEN d * 1000000 ELSE 0)) <= d * 100 + 4
-\* "sample covariance": the documentation does not say population (n) or unbiased (n - 1)
-StrictNorms(n) == {n, n - 1} \ {0}
-WhiteOk(Y, k, norms) == \E d \in norms : WhiteOkD(Y, k, d)
+\* The documentation says the data are whitened but is silent about the scale of the recovered sources.  What ICA
+\* and the documentation imply is covariance c I (centred, uncorrelated, equal variances); c is pinned to the three
+\* conventional scales: SUM_i y_i y_i^T = d I with d = n (population covariance I), d = n - 1 (unbiased covariance I)
+\* or d = 1 (orthonormal source columns, covariance I / n: the scale this code and legacy scikit-learn use).
+ScaleNorms(n) == {n, n - 1, 1} \ {0}
+\* the scales of the list that explain Y (at most one: they differ by more than the tolerance)
+NormsOf(Y, k) == {d \in ScaleNorms(Len(Y)) : WhiteOkD(Y, k, d)}
 
 -----------------------------------------------------------------------------
 (* separation *)
@@ -274,8 +279,8 @@ Rot345(M) == [i \in 1..Len(M) |-> <<RoundDiv(3 * M[i][1] + 4 * M[i][2], 5), Roun
 InvWhite ==
   pc = "done" =>
     /\ WhiteOkD(Y, K, N)                                  \* the ideal outputs have population covariance I
-    /\ WhiteOk(Y, K, StrictNorms(N))
-    /\ ~WhiteOk(Stretch(Y), K, StrictNorms(N))            \* a scale error of 0.1 % is rejected
+    /\ NormsOf(Y, K) = {N}
+    /\ NormsOf(Stretch(Y), K) = {}                       \* a scale error of 0.1 % is rejected
     /\ ~WhiteOkD(Y, K, 1)
     /\ K = 2 => WhiteOkD(Rot345(Y), 2, N)
 
@@ -287,13 +292,16 @@ InvSep ==
     /\ \A a \in 1..2 : Abs(Corr1000(Col(Y, a), Col(Src, perm[a]))) >= 990       \* exact value: 1
     /\ \A a \in 1..2 : Abs(Corr1000(Col(Y, a), Col(Src, perm[3 - a]))) <= 10    \* exact value: 0
 
-\* the named deviation of the trace specification (sources scaled by 1/sqrt(n): SUM_i y y^T = I) is modelled by d = 1:
-\* for n a perfect square the scaled ideal outputs are accepted with d = 1 only
-InvDev ==
+\* the scale 1 / sqrt(n) of the implementation (SUM_i y y^T = I) is the list entry d = 1 and nothing else:
+\* for n a perfect square the ideal outputs divided by sqrt(n) are explained by d = 1 only
+InvScale ==
   (pc = "done" /\ Isqrt(N) * Isqrt(N) = N /\ N >= 4) =>
     LET Ys == [i \in 1..N |-> [a \in 1..K |-> RoundDiv(Y[i][a], Isqrt(N))]] IN
-    /\ WhiteOkD(Ys, K, 1)
-    /\ ~WhiteOk(Ys, K, StrictNorms(N))
+    /\ NormsOf(Ys, K) = {1}
     /\ K = 2 => Separated(Ys, Src)                         \* correlation does not depend on the scale
+\* sources of unequal variance are rejected whatever the scale: second source stretched by 1 %
+Lopsided(M) == [i \in 1..Len(M) |-> <<M[i][1], M[i][2] + (M[i][2] \div 100)>>]
+InvEqualVar ==
+  (pc = "done" /\ K = 2) => NormsOf(Lopsided(Y), 2) = {}
 
 =============================================================================
